@@ -94,36 +94,6 @@ fn mutate(o1: &mut Obs, o2: &mut Obs, expanded: bool) {
     }
 }
 
-fn qubit_var_in(i: &Instruction, v: &str) -> bool {
-    i.get_qubits().iter().any(|q| matches!(q, Qubit::Variable(n) if n == v))
-        || match i {
-            // get_qubits omits these kinds in some versions; look directly
-            Instruction::SwapPhases(s) => s.frame_1.qubits.iter().chain(s.frame_2.qubits.iter()).any(|q| matches!(q, Qubit::Variable(n) if n == v)),
-            Instruction::SetPhase(s) => s.frame.qubits.iter().any(|q| matches!(q, Qubit::Variable(n) if n == v)),
-            Instruction::ShiftPhase(s) => s.frame.qubits.iter().any(|q| matches!(q, Qubit::Variable(n) if n == v)),
-            Instruction::SetFrequency(s) => s.frame.qubits.iter().any(|q| matches!(q, Qubit::Variable(n) if n == v)),
-            Instruction::ShiftFrequency(s) => s.frame.qubits.iter().any(|q| matches!(q, Qubit::Variable(n) if n == v)),
-            Instruction::SetScale(s) => s.frame.qubits.iter().any(|q| matches!(q, Qubit::Variable(n) if n == v)),
-            _ => false,
-        }
-}
-
-/// measurement calibration whose body uses its qubit variable, or captures into a region other
-/// than the formal target
-fn measure_subst_class(c: &MeasureCalibrationDefinition) -> bool {
-    let uses_var = if let Qubit::Variable(v) = &c.identifier.qubit {
-        c.instructions.iter().any(|i| qubit_var_in(i, v))
-    } else {
-        false
-    };
-    let foreign_capture = c.identifier.target.is_some()
-        && c.instructions.iter().any(|i| match i {
-            Instruction::Capture(cap) => Some(&cap.memory_reference.name) != c.identifier.target.as_ref(),
-            _ => false,
-        });
-    uses_var || foreign_capture
-}
-
 /// measurement calibration that uses its formal target name outside a CAPTURE target or the
 /// LOAD-MEMORY pragma text
 fn measure_target_uses_class(c: &MeasureCalibrationDefinition) -> bool {
@@ -147,7 +117,6 @@ fn measure_target_uses_class(c: &MeasureCalibrationDefinition) -> bool {
 }
 
 struct Classes {
-    measure_subst: bool,
     measure_target_uses: bool,
 }
 
@@ -157,10 +126,9 @@ fn classes(p: &Program, map: Option<&Map>) -> Classes {
     if let Some(m) = map {
         calgen::used_sources(m, &mut used);
     }
-    let mut c = Classes { measure_subst: false, measure_target_uses: false };
+    let mut c = Classes { measure_target_uses: false };
     for cal in p.calibrations.iter_measure_calibrations() {
         if all || used.contains(&CalibrationSource::MeasureCalibration(cal.identifier.clone())) {
-            c.measure_subst |= measure_subst_class(cal);
             c.measure_target_uses |= measure_target_uses_class(cal);
         }
     }
@@ -265,12 +233,10 @@ fn run_case(run: &mut Run, text: &str, verbose: bool) {
             Err(e) => println!("--- with source map error: {e}"),
         }
         println!("--- Coq case (mode 0)\n(0, {lit})");
-        println!("classes: pending-fix-measure-subst={} measure-calibration-target-uses={}", cl.measure_subst, cl.measure_target_uses);
+        println!("class measure-calibration-target-uses: {}", cl.measure_target_uses);
     }
     let desc = text.to_string();
-    if cl.measure_subst {
-        run.case(format!("(0, {lit})"), &desc, expanded, Some("pending-fix-measure-subst"));
-    } else if cl.measure_target_uses {
+    if cl.measure_target_uses {
         // the model follows the code here: correspondence is still demanded, the property check
         // alone is attributed to the known finding
         run.case(format!("(1, {lit})"), &desc, expanded, None);
